@@ -197,7 +197,7 @@ fn render_lists(c: &Common) -> (String, String, String) {
     (map, prob, wo)
 }
 
-fn render_unsync_snap(s: &UnsyncSnap<VKey, VVal>, now: u64, freqs: String) -> String {
+fn render_unsync_snap(s: &UnsyncSnap<VKey, VVal>, now: u64, freqs: String, live: String) -> String {
     if let Some(e) = &s.structure_error {
         return format!("snap structure-error {}", e);
     }
@@ -211,7 +211,7 @@ fn render_unsync_snap(s: &UnsyncSnap<VKey, VVal>, now: u64, freqs: String) -> St
         sync: false,
     });
     format!(
-        "snap ec={} ws={} now={} va=- rq=0 wq=0 hk=0,0 map={} prob={} wo={} {} freq={}",
+        "snap ec={} ws={} now={} va=- rq=0 wq=0 hk=0,0 map={} prob={} wo={} {} freq={} live={}",
         s.entry_count,
         s.weighted_size,
         now,
@@ -219,11 +219,12 @@ fn render_unsync_snap(s: &UnsyncSnap<VKey, VVal>, now: u64, freqs: String) -> St
         prob,
         wo,
         render_sketch(&s.sketch),
-        freqs
+        freqs,
+        live
     )
 }
 
-fn render_sync_snap(s: &SyncSnap<VKey, VVal>, now: u64, freqs: String) -> String {
+fn render_sync_snap(s: &SyncSnap<VKey, VVal>, now: u64, freqs: String, live: String) -> String {
     if let Some(e) = &s.structure_error {
         return format!("snap structure-error {}", e);
     }
@@ -237,7 +238,7 @@ fn render_sync_snap(s: &SyncSnap<VKey, VVal>, now: u64, freqs: String) -> String
         sync: true,
     });
     format!(
-        "snap ec={} ws={} now={} va={} rq={} wq={} hk={},{} map={} prob={} wo={} {} freq={}",
+        "snap ec={} ws={} now={} va={} rq={} wq={} hk={},{} map={} prob={} wo={} {} freq={} live={}",
         s.entry_count,
         s.weighted_size,
         now,
@@ -250,7 +251,8 @@ fn render_sync_snap(s: &SyncSnap<VKey, VVal>, now: u64, freqs: String) -> String
         prob,
         wo,
         render_sketch(&s.sketch),
-        freqs
+        freqs,
+        live
     )
 }
 
@@ -408,6 +410,14 @@ fn exec_unsync<S: std::hash::BuildHasher + Clone>(c: &mut UCache<VKey, VVal, S>,
             }
             None => "bad-op".into(),
         },
+        Some("live") if ws.len() == 1 => {
+            // number of key / value objects alive right now (instrumented types)
+            format!(
+                "live k={} v={}",
+                KEY_LIVE.load(std::sync::atomic::Ordering::SeqCst),
+                VAL_LIVE.load(std::sync::atomic::Ordering::SeqCst)
+            )
+        }
         Some("policy") if ws.len() == 1 => {
             let p = c.policy();
             let d = |x: Option<Duration>| match x {
@@ -440,6 +450,12 @@ fn exec_unsync<S: std::hash::BuildHasher + Clone>(c: &mut UCache<VKey, VVal, S>,
             Err(_) => "bad-op".into(),
         },
         Some("snap") if ws.len() == 1 => {
+            // live object counts first: the snapshot itself clones keys and values
+            let live = format!(
+                "{},{}",
+                KEY_LIVE.load(std::sync::atomic::Ordering::SeqCst),
+                VAL_LIVE.load(std::sync::atomic::Ordering::SeqCst)
+            );
             let s = c.verif_snapshot(clock);
             let mut keys: Vec<u64> = s.entries.iter().map(|e| e.key.0).collect();
             keys.sort();
@@ -451,7 +467,7 @@ fn exec_unsync<S: std::hash::BuildHasher + Clone>(c: &mut UCache<VKey, VVal, S>,
                 })
                 .collect::<Vec<_>>()
                 .join(",");
-            render_unsync_snap(&s, clock.now_ns(), freqs)
+            render_unsync_snap(&s, clock.now_ns(), freqs, live)
         }
         Some("freq") if ws.len() == 2 => match num(1) {
             Some(k) => {
@@ -516,6 +532,14 @@ fn exec_sync<S: std::hash::BuildHasher + Clone + Send + Sync + 'static>(c: &SCac
             }
             None => "bad-op".into(),
         },
+        Some("live") if ws.len() == 1 => {
+            // number of key / value objects alive right now (instrumented types)
+            format!(
+                "live k={} v={}",
+                KEY_LIVE.load(std::sync::atomic::Ordering::SeqCst),
+                VAL_LIVE.load(std::sync::atomic::Ordering::SeqCst)
+            )
+        }
         Some("policy") if ws.len() == 1 => {
             let p = c.policy();
             let d = |x: Option<Duration>| match x {
@@ -545,6 +569,12 @@ fn exec_sync<S: std::hash::BuildHasher + Clone + Send + Sync + 'static>(c: &SCac
             Err(_) => "bad-op".into(),
         },
         Some("snap") if ws.len() == 1 => {
+            // live object counts first: the snapshot itself clones keys and values
+            let live = format!(
+                "{},{}",
+                KEY_LIVE.load(std::sync::atomic::Ordering::SeqCst),
+                VAL_LIVE.load(std::sync::atomic::Ordering::SeqCst)
+            );
             let s = c.verif_snapshot(clock);
             let mut keys: Vec<u64> = s.entries.iter().map(|e| e.key.0).collect();
             keys.sort();
@@ -556,7 +586,7 @@ fn exec_sync<S: std::hash::BuildHasher + Clone + Send + Sync + 'static>(c: &SCac
                 })
                 .collect::<Vec<_>>()
                 .join(",");
-            render_sync_snap(&s, clock.now_ns(), freqs)
+            render_sync_snap(&s, clock.now_ns(), freqs, live)
         }
         Some("freq") if ws.len() == 2 => match num(1) {
             Some(k) => {
@@ -614,6 +644,20 @@ pub fn run_file<R: BufRead, W: Write>(input: R, out: &mut W) {
             continue;
         }
         if dead {
+            continue;
+        }
+        if op == "drop" {
+            // drop the last handle to the cache (operations may still be queued): every key
+            // and value object must be released
+            live = None;
+            dead = true;
+            writeln!(
+                out,
+                "drop -> dropped k={} v={}",
+                KEY_LIVE.load(std::sync::atomic::Ordering::SeqCst),
+                VAL_LIVE.load(std::sync::atomic::Ordering::SeqCst)
+            )
+            .unwrap();
             continue;
         }
         let res = match live.as_mut() {
